@@ -1,22 +1,22 @@
-\* exhaustive, all repairs on (1 key, 2 elements, T = 1, 2 batches, 2 clients x 2 ops, pin/append split): all invariants hold
+\* mutant LateSnapshot (snapshot after the streaming scan was opened), everything else repaired: TLC must report ReadYourWrites violated
 SPECIFICATION Spec
 CONSTANTS
   Keys = {k1}
   Elems = {1, 2}
   Clients = {c1, c2}
-  MaxBatches = 2
+  MaxBatches = 3
   MaxOps = 2
   T = 1
   LostInsert = FALSE
   FlushMax = FALSE
   FoldCancel = FALSE
   SpillCut = FALSE
-  LateSnapshot = FALSE
+  LateSnapshot = TRUE
   LateSnapFetch = FALSE
-  SplitAppend = TRUE
+  SplitAppend = FALSE
   Gen = FALSE
   PrintCex = FALSE
 SYMMETRY Sym
 VIEW view
-INVARIANTS ReadYourWrites SetMatchesRef RememberedAbsence LogPinned
+INVARIANTS ReadYourWrites
 CHECK_DEADLOCK FALSE
